@@ -65,6 +65,12 @@ func init() {
 		}
 		return v
 	})
+	nd("ParamOr", func(fr *frame, args []value) value {
+		if v, ok := X.Params[args[0].(string)]; ok {
+			return v
+		}
+		return args[1]
+	})
 	nd("Byte", func(fr *frame, args []value) value { return ndScalar(ndName(args[0]), 8, false) })
 	nd("Int64", func(fr *frame, args []value) value { return ndScalar(ndName(args[0]), 64, true) })
 	nd("Uint64", func(fr *frame, args []value) value { return ndScalar(ndName(args[0]), 64, false) })
